@@ -6,7 +6,7 @@ use petgraph::visit::EdgeRef;
 use petgraph::{Directed, Direction, EdgeType, Undirected};
 use std::panic::{catch_unwind, AssertUnwindSafe};
 
-type Gr<Ty, Ix> = Graph<u32, u32, Ty, Ix>;
+pub type Gr<Ty, Ix> = Graph<u32, u32, Ty, Ix>;
 enum AnyG<Ix: IndexType> { D(Gr<Directed, Ix>), U(Gr<Undirected, Ix>) }
 
 fn ni<Ix: IndexType>(x: i64) -> NodeIndex<Ix> { NodeIndex::new(x as usize) }
@@ -20,7 +20,7 @@ fn eref_flat<'a, Ix: IndexType>(it: impl Iterator<Item = petgraph::graph::EdgeRe
 }
 fn with(a: i64, mut v: Vec<i64>) -> Vec<i64> { v.insert(0, a); v }
 
-fn battery<Ty: EdgeType, Ix: IndexType>(g: &Gr<Ty, Ix>) -> Vec<String> {
+pub fn battery<Ty: EdgeType, Ix: IndexType>(g: &Gr<Ty, Ix>) -> Vec<String> {
     let mut v = Vec::new();
     v.push(line("counts", &[g.node_count() as i64, g.edge_count() as i64]));
     v.push(line("nw", &g.node_weights().map(|w| *w as i64).collect::<Vec<_>>()));
@@ -54,7 +54,7 @@ fn opt(o: Option<u32>) -> String { match o { Some(w) => line("some", &[w as i64]
 fn optix(o: Option<usize>) -> String { match o { Some(w) => line("some", &[w as i64]), None => "none".into() } }
 
 /// one operation on a graph of a fixed edge type; returns the first observation line
-fn apply<Ty: EdgeType, Ix: IndexType>(g: &mut Gr<Ty, Ix>, o: &GOp) -> String {
+pub fn apply<Ty: EdgeType, Ix: IndexType>(g: &mut Gr<Ty, Ix>, o: &GOp) -> String {
     let a = &o.1;
     match o.0.as_str() {
         "add_node" => line("idx", &[g.add_node(a[0] as u32).index() as i64]),
@@ -97,7 +97,7 @@ fn apply<Ty: EdgeType, Ix: IndexType>(g: &mut Gr<Ty, Ix>, o: &GOp) -> String {
     }
 }
 
-fn is_query(name: &str) -> bool {
+pub fn is_query(name: &str) -> bool {
     matches!(name, "node_weight" | "edge_weight" | "edge_endpoints" | "find_edge" | "find_edge_undirected" | "edges_connecting" | "first_edge" | "next_edge" | "walker")
 }
 
